@@ -4,8 +4,10 @@
 (* string the compiled automaton accepts iff the expression matches, a dead *)
 (* transition is reported exactly when no extension can match... (only the  *)
 (* sound direction: dead => no match), tags are those of the matching       *)
-(* alternatives, terminal => no recorded extension matches, bytes outside   *)
-(* the expression's alphabet are dead from every visited state.             *)
+(* alternatives (also when the tagged choice is nested before a             *)
+(* continuation and the whole expression does not accept yet), terminal =>  *)
+(* no recorded extension matches, bytes outside the expression's alphabet   *)
+(* are dead from every visited state.                                       *)
 EXTENDS Regex, TLC, Json, IOUtils, SequencesExt
 Rec == ndJsonDeserialize(IOEnv.TRACE)
 N(b) == [i \in 1..Len(b) |-> b[i]]
@@ -18,7 +20,11 @@ ToSetOf(s) == { s[i] : i \in 1..Len(s) }
 \* res entry: <<w, alive, acc, term, tags>>
 EntryVerdict(r, e, f, x, all) ==
   LET w == N(x[1]) alive == x[2] = 1 acc == x[3] = 1 term == x[4] = 1 tags == ToSetOf(x[5])
-      m == IF r.tagged THEN M(e, w) \/ M(f, w) ELSE M(e, w)
+      g == E(r.g)
+      \* nested: (e{1} | f{2}) g - the whole expression matches w iff some prefix is matched by an alternative and the rest by g;
+      \* the tags after w are still those of the alternatives that match w itself
+      m == IF r.nested THEN \E i \in 0..Len(w) : (M(e, SubSeq(w, 1, i)) \/ M(f, SubSeq(w, 1, i))) /\ M(g, SubSeq(w, i + 1, Len(w)))
+           ELSE IF r.tagged THEN M(e, w) \/ M(f, w) ELSE M(e, w)
   IN IF ~alive /\ (acc \/ term) THEN "dead-but-flagged"
      ELSE IF acc # m THEN "language"
      ELSE IF r.tagged /\ alive /\ tags # ((IF M(e, w) THEN {1} ELSE {}) \cup (IF M(f, w) THEN {2} ELSE {})) THEN "tags"
